@@ -7,6 +7,7 @@ while true; do
     flock 9
     cd /verif && git add -A >/dev/null 2>&1 && git diff --cached --quiet || git commit -qm "wip: work in progress (autocommit)" >/dev/null 2>&1
     cd /repo && new=$(git ls-files --others --exclude-standard | grep 'export_verif[^/]*\.go$')
-    if [ -n "$new" ]; then git add $new && git commit -qm "verif hook: export files (build tag verif, add-only)" >/dev/null 2>&1; fi
+    mod=$(git diff --name-only | grep 'export_verif[^/]*\.go$')
+    if [ -n "$new$mod" ]; then git add $new $mod && git commit -qm "verif hook: export files (build tag verif, add-only)" -- $new $mod >/dev/null 2>&1; fi
   ) 9>/tmp/verif-autocommit.lock
 done
